@@ -150,6 +150,30 @@ pub fn drive_rt<T: Reg + Encode + Decode>(ctx: &mut Ctx, elem_size: Option<usize
 	}
 }
 
+/// std's RangeInclusive carries a hidden "exhausted" flag once iterated to the end; the value
+/// decoded from its encoding compares unequal under `==` although start and end agree.
+pub fn drive_rt_exhausted(ctx: &mut Ctx) {
+	use core::ops::RangeInclusive;
+	let tn = <RangeInclusive<i16>>::name();
+	if !ctx.wants(&tn) { return }
+	let mut r: RangeInclusive<i16> = 3..=5;
+	for _ in r.by_ref() {}
+	let out = r.encode();
+	let d = <RangeInclusive<i16>>::decode(&mut &out[..]);
+	let mut m = header::<RangeInclusive<i16>>("rt");
+	m.insert("src".into(), json!("exhausted"));
+	m.insert("v".into(), r.abs());
+	m.insert("out".into(), bytes_json(&out));
+	m.insert("tail".into(), json!([]));
+	m.insert("rest".into(), json!([]));
+	m.insert("n".into(), json!(out.len()));
+	match d {
+		Ok(d) => { m.insert("res".into(), json!("ok")); m.insert("dv".into(), d.abs()); m.insert("eq".into(), json!(d == r)); },
+		Err(_) => { m.insert("res".into(), json!("err")); },
+	}
+	ctx.emit(&tn, Value::Object(m));
+}
+
 fn emit_rt<T: Reg + Encode + Decode>(ctx: &mut Ctx, g: &mut G, v: &T) {
 	let mut m = header::<T>("rt");
 	m.insert("v".into(), v.abs());
@@ -213,7 +237,10 @@ fn has_zero_elems(d: &Value) -> bool {
 		Value::Object(m) => {
 			if m.get("k").and_then(|k| k.as_str()) == Some("seq") {
 				if let Some(t) = m.get("t") {
-					if t.get("k").and_then(|k| k.as_str()) == Some("unit") || t.get("sz").and_then(|s| s.as_u64()) == Some(0) {
+					let k = t.get("k").and_then(|k| k.as_str());
+					let empty_tuple = k == Some("tuple") && t.get("ts").and_then(|x| x.as_array()).map(|a| a.is_empty()).unwrap_or(false);
+					let empty_array = k == Some("array") && t.get("n").and_then(|x| x.as_u64()) == Some(0);
+					if k == Some("unit") || empty_tuple || empty_array || t.get("sz").and_then(|s| s.as_u64()) == Some(0) {
 						return true;
 					}
 				}
@@ -1034,15 +1061,18 @@ pub mod append {
 			(Some(16383), vec![1]), (Some(16380), vec![5]),
 			(Some(p30 - 2), vec![1, 1, 1]), (Some(p30 - 1), vec![1]), (Some(p30 - 1), vec![0, 2]), (Some(p30), vec![1]),
 			(Some(p32 - 3), vec![1, 1, 1]), (Some(p32 - 2), vec![2]), (Some(p32 - 1), vec![0, 1]), (Some(p32 - 1), vec![1]),
-			(Some(5), vec![p30 - 6, 1]), (Some(1), vec![p30]),
 		];
 		if big {
+			// batches of 2^30 .. 2^32 items really are iterated by the implementation (seconds each)
 			cases.extend(vec![
+				(Some(5), vec![p30 - 6, 1]), (Some(1), vec![p30]),
 				(Some(1), vec![p32]), (Some(0), vec![p32 - 1, 1]), (Some(1), vec![p32 - 1]), (None, vec![p32 - 1, 1]),
 				(None, vec![p32]), (Some(4), vec![p32 + 1]), (Some(p30), vec![3 * p30, 1]),
 			]);
 		} else {
-			cases.extend(vec![(Some(1), vec![p32]), (None, vec![p32]), (Some(0), vec![p32 - 1, 1])]);
+			// refused without iterating: the batch size itself does not fit
+			cases.extend(vec![(Some(1), vec![p32]), (None, vec![p32]), (Some(p32 - 1), vec![p32 + 1]), (Some(0), vec![p32]),
+				(Some(p32 - 1), vec![p30 + 1]), (Some(p30), vec![3 * p30]), (Some(p32 - 2), vec![p32 - 1])]);
 		}
 		for (start, batches) in cases {
 			let mut m = header::<C>("app");
@@ -1293,6 +1323,103 @@ pub mod hist {
 				sls.push(json!([a, b, enc2(&&d[a..b])]));
 			}
 			emit::<BitVec<T, O>>(ctx, ops, outs, sls);
+		}
+	}
+}
+
+// ------------------------------------------------------------------ C09: allocation ledger on hostile inputs
+
+fn hostile_compact(n: u64) -> Vec<u8> {
+	if n < 1 << 6 { vec![(n as u8) << 2] }
+	else if n < 1 << 14 { (((n as u16) << 2) | 1).to_le_bytes().to_vec() }
+	else if n < 1 << 30 { (((n as u32) << 2) | 2).to_le_bytes().to_vec() }
+	else { let mut v = vec![3u8]; v.extend_from_slice(&(n as u32).to_le_bytes()); v }
+}
+
+pub fn drive_heap<T: Reg + Encode + Decode>(ctx: &mut Ctx) {
+	let tn = T::name();
+	if !ctx.wants(&tn) {
+		return;
+	}
+	let mut g = ctx.rng_for(&tn, 19);
+	let zero = has_zero_elems(&T::descr()) || has_zero_elems(&env_of::<T>());
+	// zero-sized elements: the decoder loops once per claimed element (terminates, but slowly);
+	// elements with an empty encoding and a non-zero size are the known finding: cap at 2^22
+	let counts: Vec<u64> = if zero { vec![1 << 22, (1 << 16) + 1, 300] } else { vec![u32::MAX as u64, 1 << 31, 1 << 30, (1 << 24) + 1, 70000] };
+	let mut valid: Vec<Vec<u8>> = vec![];
+	for _ in 0..(if ctx.tier == "thorough" { 4 } else { 2 }) {
+		let v = T::gen(&mut g);
+		if let Ok(b) = guarded(|| v.encode()) { valid.push(b) }
+	}
+	if let Some(v) = T::gen_len(&mut g, 5) {
+		if let Ok(b) = guarded(|| v.encode()) { valid.push(b) }
+	}
+	let mut inputs: Vec<Vec<u8>> = vec![];
+	for b in &valid {
+		inputs.push(b.clone());
+		let maxpos = b.len().min(if ctx.tier == "thorough" { 12 } else { 3 });
+		for i in 0..=maxpos {
+			for (ci, c) in counts.iter().enumerate() {
+				if ctx.tier != "thorough" && (i + ci) % 2 == 1 { continue }
+				let mut x = b[..i.min(b.len())].to_vec();
+				x.extend_from_slice(&hostile_compact(*c));
+				if i < b.len() { x.extend_from_slice(&b[(i + 1).min(b.len())..]); }
+				// plausible payload behind it
+				let pay = if ctx.tier == "thorough" { *g.pick(&[0usize, 0, 64, 4096, 65536]) } else { *g.pick(&[0usize, 0, 64, 2048]) };
+				let mut k = 0;
+				while x.len() < pay + i && !b.is_empty() { x.push(b[k % b.len()]); k += 1; }
+				inputs.push(x);
+			}
+		}
+	}
+	for inp in inputs {
+		for be in ["rec", "unk", "bytes"] {
+			#[cfg(not(feature = "bytes"))]
+			if be == "bytes" { continue }
+			let mut m = header::<T>("heap");
+			m.insert("be".into(), json!(be));
+			m.insert("len".into(), json!(inp.len()));
+			m.insert("inp".into(), bytes_json(&inp[..inp.len().min(24)]));
+			let res;
+			let consumed;
+			if be == "bytes" {
+				#[cfg(feature = "bytes")]
+				{
+					crate::ledger::begin();
+					let b = bytes::Bytes::copy_from_slice(&inp);
+					let r = guarded(|| parity_scale_codec::decode_from_bytes::<T>(b));
+					crate::ledger::pause();
+					res = match &r { Ok(Ok(_)) => "ok", Ok(Err(_)) => "err", Err(()) => "panic" };
+					// the shared-buffer cursor does not report its position: charge the whole input
+					consumed = inp.len();
+					crate::ledger::resume();
+					drop(r);
+					crate::ledger::pause();
+				}
+				#[cfg(not(feature = "bytes"))]
+				{ res = "err"; consumed = 0; }
+			} else {
+				let mut ri = RecIn::new(&inp, be == "rec");
+				crate::ledger::begin();
+				let r = guarded(|| T::decode(&mut ri));
+				crate::ledger::pause();
+				res = match &r { Ok(Ok(_)) => "ok", Ok(Err(_)) => "err", Err(()) => "panic" };
+				consumed = ri.pos;
+				crate::ledger::resume();
+				drop(r);
+				crate::ledger::pause();
+			}
+			let (ev, overflow) = crate::ledger::events();
+			// the ledger logs only requests that raise the live total above every earlier one at the
+			// same or a smaller depth (the bound grows with depth and with the bytes delivered)
+			let hev: Vec<Value> = ev.iter().map(|(_, live, at, dp)| json!([digits(*live as u128, 8), if be == "bytes" { inp.len() as u64 } else { *at }, dp])).collect();
+			m.insert("hev".into(), Value::Array(hev));
+			m.insert("nev".into(), json!(ev.len()));
+			m.insert("evo".into(), json!(overflow));
+			m.insert("res".into(), json!(res));
+			m.insert("n".into(), json!(consumed));
+			m.insert("leak".into(), json!(crate::ledger::live()));
+			ctx.emit(&tn, Value::Object(m));
 		}
 	}
 }
